@@ -1070,7 +1070,7 @@ fn monitors<M: RawMutex + 'static, A: RingBuf<Item = Tagged> + 'static>(c: &mut 
     }
     c.order.clear();
     if have {
-        let mut views: Vec<SlotView> = Vec::with_capacity(2 * c.k + 1);
+        let mut views = Views::new();
         for (i, s) in c.recv.iter().enumerate() {
             views.push(SlotView { queue: 0, idx: i as u8, range: s.range(), pending: s.pending(), woken: s.woken() });
         }
